@@ -7,12 +7,13 @@ import Uhppote.Driver.ModelAddr
 import Uhppote.Driver.ModelZones
 import Uhppote.Driver.ModelText
 import Uhppote.Driver.ModelInsulate
+import Uhppote.Driver.ModelNet
 /-! `modeldrv`: evaluates the executable MODEL (hand-written model + regenerated `Gen`) on the
     line protocol; core Lean only so that it links. -/
 open Uhppote
 
 def handlers : List (List String → Option String) :=
-  [Driver.ModelBCD.handle, Driver.Order.model, Driver.ModelCodec.handle, Driver.ModelOps.handle, Driver.Events.model, Driver.ModelAddr.handle, Driver.ModelZones.handle, Driver.ModelText.handle, Driver.ModelInsulate.handle]
+  [Driver.ModelBCD.handle, Driver.Order.model, Driver.ModelCodec.handle, Driver.ModelOps.handle, Driver.Events.model, Driver.ModelAddr.handle, Driver.ModelZones.handle, Driver.ModelText.handle, Driver.ModelInsulate.handle, Driver.ModelNet.handle]
 
 def handle (ts : List String) : String :=
   match handlers.findSome? (· ts) with
